@@ -15,6 +15,7 @@ from concurrent.futures import ThreadPoolExecutor
 
 sys.path.insert(0, os.path.dirname(os.path.dirname(os.path.abspath(__file__))))
 import vlib
+from vlib import dbfile
 
 NAMES = ['liba', 'libb', 'libc', 'libd', 'libe', 'libf']
 
@@ -78,11 +79,12 @@ def main():
         # Every library i defines a base class B<i> (base<i>.h); for each dependency edge i->j it also defines, in its own
         # header d<i>_<j>.h, a class that derives from B<j> (inheritance edge) or a typedef of B<j> (typedef edge).
         # File-level includes are acyclic whatever the library graph is.
+        # A typedef edge cannot be produced with interrogate alone (a typedef of a class of another package is exported only under `forcetype`,
+        # which also exports the class): library i then merely USES the class (a parameter type, so that its database holds a stub of it) and a
+        # global typedef record wrapping that stub is appended to the database text afterwards, exactly as interrogate writes such records.
         inherit, tdef = [], []
-        for (i, j) in edges:
-            # typedef edges cannot be realised without exporting the target class from both libraries (a typedef of a class of
-            # another package is exported only under `forcetype`, which also exports the class itself): inheritance edges only
-            inherit.append((i, j))
+        for n_e, (i, j) in enumerate(edges):
+            (tdef if (idx + n_e) % 3 == 2 else inherit).append((i, j))
         # in an acyclic graph every second module uses chains of derived classes: the class of library i that realises the edge i->j derives
         # from the class of library j that realises j's first edge (Leaf : Mid : Top), so that a library holds only a stub of the class
         # that carries the next edge
@@ -101,7 +103,7 @@ def main():
                 state[u] = 2
                 return True
             return all(visit(u) for u in range(k))
-        deep = idx % 2 == 0 and is_acyclic()
+        deep = idx % 2 == 0 and is_acyclic() and not tdef
 
         def base_of(j):
             nxt = [c for (a, c) in edges if a == j]
@@ -129,9 +131,7 @@ def main():
                 if (i, j) in inherit:
                     body += ['class D%d_%d : public %s {' % (i, j, bcls), 'PUBLISHED:', '  D%d_%d();' % (i, j), '  int extra_%d_%d();' % (i, j), '};']
                 else:
-                    body += ['BEGIN_PUBLISH', 'typedef B%d T%d_%d;' % (j, i, j), 'END_PUBLISH']
-                    # a typedef of a class from another package is exported only when forced by the command file
-                    open(os.path.join(d, 'd%d_%d.N' % (i, j)), 'w').write('forcetype B%d\n' % j)
+                    body += ['class U%d_%d {' % (i, j), 'PUBLISHED:', '  U%d_%d();' % (i, j), '  int use_%d_%d(const %s &t) const;' % (i, j, bcls), '};']
                 body.append('#endif')
                 open(os.path.join(d, fn), 'w').write('\n'.join(body) + '\n')
         for i in range(k):
@@ -144,6 +144,26 @@ def main():
             if p.returncode != 0:
                 return ('interrogate-failed', p.stdout[-400:], inherit, tdef)
             ins.append(os.path.join(d, NAMES[i] + '.in'))
+            # append the typedef records of this library
+            for (a, j) in tdef:
+                if a != i:
+                    continue
+                txt = open(ins[-1]).read()
+                db_ = dbfile.load(ins[-1], b['src'])
+                stub = [ti for ti, t in db_['types'].items() if t['name'] == 'B%d' % j]
+                nt = len(db_['types'])
+                mx = max(list(db_['types']) + list(db_['functions']) + list(db_['wrappers']))
+                first = min(db_['types'])
+                lines_ = txt.split('\n')
+                at = [n_ for n_, l_ in enumerate(lines_) if l_.startswith('%d ' % first) and n_ > 0 and lines_[n_ - 1] == str(nt)]
+                if len(stub) != 1 or len(at) != 1 or not txt.endswith('0\n0\n0\n'):
+                    return ('interrogate-failed', 'cannot append a typedef record to %s (stub %s, count line %s)' % (ins[-1], stub, at), inherit, tdef)
+                lines_[at[0] - 1] = str(nt + 1)
+                nm = 'T%d_%d' % (i, j)
+                rec = '%d %d %s 0 %d %d %s %d %s 0 0 %d 0 0 0 0 0 0 0 0 0 0\n' % (mx + 1, len(nm), nm, 0x202001, len(nm), nm, len(nm), nm, stub[0])
+                txt = '\n'.join(lines_)
+                txt = txt[:-len('0\n0\n0\n')] + rec + '\n' + '0\n0\n0\n'
+                open(ins[-1], 'w').write(txt)
         outs = []
         perms = list(itertools.permutations(range(k))) if k <= 3 else [tuple(range(k)), tuple(reversed(range(k))), tuple(rng.sample(range(k), k))]
         for perm in perms:
